@@ -297,6 +297,21 @@ PIECE = re.compile(r"""'(?:[^'\\]|\\.)'|"(?:[^"\\]|\\.)*"|[A-Za-z_][A-Za-z0-9_]*
 # parentheses inside quotes); no ';' or tab inside literals: those are known findings of their own
 EXTRA_DATA = ["  .db '\"', 1", "  .db \"a,b)\", ',', '('", "  .ascii \"it's\"", "  .db ')', \"(\", 2", "  .db \"q\\\"r\", 3",
               "  .db '\\'', 4"]
+STRING_ATOMS = ["a", "b", "xy", "Z9", " ", " ", "  ", "   ", "    ", ",", ", ", "(", ")", " )", "( ", "'", "_", "-", "+ ", ".", ":", "#"]
+
+
+def extra_data(rng):
+    """a data statement whose literal is hard for an argument collector: one of EXTRA_DATA or a string built from
+    STRING_ATOMS (runs of blanks at the start, the end and inside, next to commas / parentheses / apostrophes;
+    no ';', tab or backslash: those are known findings of their own).  Every blank of a string literal is a byte
+    of the image, whether the literal stands in the text or arrives through a parameter (seeded C09-m3)."""
+    if rng.random() < 0.5:
+        return rng.choice(EXTRA_DATA)
+    s = "".join(rng.choice(STRING_ATOMS) for _ in range(rng.choice([1, 2, 3, 5, 8])))
+    form = rng.choice(['  .db "%s", 1', '  .ascii "%s"', '  .db 2, "%s"', '  .asciiz "%s"'])
+    return form % s
+
+
 TRICKY_PARAMS = ["b", "h", "q", "x", "d", "w", "l", "e", "b1", "_p", "p_", "a"]
 
 
@@ -589,7 +604,7 @@ def wrapped_program(rng, lines):
     head = [l for l in lines[:2]]
     body = list(lines[2:])
     for _ in range(rng.choice([0, 1, 1, 2])):
-        body.insert(rng.randrange(len(body) + 1), rng.choice(EXTRA_DATA))
+        body.insert(rng.randrange(len(body) + 1), extra_data(rng))
     names = Namer()
     incs = {}
     wl, el, kinds = list(head), list(head), []
